@@ -27,6 +27,7 @@ ASSUMPTIONS = {
 
 DTYPE_TWIN_P = 0.3
 LAYOUT_TWIN_P = 0.15
+DERIVED_TWIN_P = 0.2
 
 
 def _layout_twin(kwargs, kind="F"):
@@ -228,6 +229,19 @@ def run_bounded(cid, tier, seed):
             out["failures"].append({"inputs": js, "clause": cid, "detail": msg, "history": list(hist)})
             if len(out["failures"]) >= 5:
                 break
+        elif rng.random() < DERIVED_TWIN_P:
+            # derived-object twin (pyvc/bounded.py): the same case with the masks / kernels / meshes the check builds obtained as
+            # derived objects of a parent that was used first -- same contents, so the check's own oracle must still pass
+            try:
+                with bounded.derived_constructors():
+                    msg2 = chk.run(rtc.from_jsonable(js))
+            except Exception:
+                msg2 = "exception: " + traceback.format_exc()[-800:]
+            out["derived_twins"] = out.get("derived_twins", 0) + 1
+            if msg2 is not None:
+                out["failures"].append({"inputs": js, "clause": cid, "detail": bounded.DERIVED_NOTE + str(msg2), "history": [], "layout": "DERIVED"})
+                if len(out["failures"]) >= 5:
+                    break
         hist.append(js)
         if time.time() - t0 > limit_s:
             out["truncated"] = True
